@@ -14,7 +14,7 @@ Proof. reflexivity. Qed.
 Lemma image_checks_ok :
   image_checks = map serr_code [EmptyPath; PathIsAbsolute; InvalidPathComponent; Subdir; InvalidImage].
 Proof. reflexivity. Qed.
-Lemma glyph_image_checks_ok : glyph_image_checks = map serr_code [EmptyPath; PathIsAbsolute; Subdir].
+Lemma glyph_image_checks_ok : glyph_image_checks = map serr_code [EmptyPath; PathIsAbsolute; Subdir; PathNotUnicode].
 Proof. reflexivity. Qed.
 (** ... and the model applies them with that priority (inputs that fail several checks at once) *)
 Example model_check_priority :
@@ -28,6 +28,12 @@ Example model_check_priority :
   validate KImage [97; 47; 98] [] [] = Some Subdir /\
   validate KImage [97] [] [137; 80; 78; 71; 13; 10; 26] = Some InvalidImage /\
   validate KImage [97] [] PNG_SIG = None.
+Proof. vm_compute. repeat split. Qed.
+
+Example glyph_image_check_priority :
+  glyph_image_new [] = Some EmptyPath /\ glyph_image_new [47; 255] = Some PathIsAbsolute /\
+  glyph_image_new [97; 47; 255] = Some Subdir /\ glyph_image_new [97; 255] = Some PathNotUnicode /\
+  glyph_image_new [195; 169] = None.
 Proof. vm_compute. repeat split. Qed.
 
 (** save_impl: force every cell and refuse, THEN wipe, create, write data (create_dir_all, write),
